@@ -84,15 +84,15 @@ void absSums(const std::vector<std::array<Real,4>>& parts, std::vector<long doub
     }
 }
 
-struct BoxN { double centre, width; const char* name; };
-const BoxN BOXES[3] = {{0.5, 1.0, "unit"}, {-11.3, 3.7, "shifted-3.7"}, {100.0, 0.015625, "small-far"}};
+struct BoxN { double c[3]; double width; const char* name; double corner(const int d) const { return c[d] - width/2; } };   // cubic boxes; the centre differs per axis in the shifted ones
+const BoxN BOXES[3] = {{{0.5, 0.5, 0.5}, 1.0, "unit"}, {{-11.3, 4.1, 0.7}, 3.7, "shifted-3.7"}, {{100.0, -60.0, 31.0}, 0.015625, "small-far"}};
 
 // runs the FMM; exec 0 = sequential, 1.. = OpenMP under the mock runtime with the named schedule exec-1
 template <class Real, class KernelClass, class MultipoleClass, class LocalClass, class MakeKernel>
 Res runFmm(const std::vector<std::array<Real,4>>& parts, const int height, const BoxN& box, const long bs, const bool ogpp, const int exec, MakeKernel&& makeKernel, bool& finite){
     using SI = TbfDefaultSpaceIndexType<Real>;
     using Tree = TbfTree<Real, Real, 4, Real, 4, MultipoleClass, LocalClass, SI>;
-    const std::array<Real,3> w{{Real(box.width), Real(box.width), Real(box.width)}}, c{{Real(box.centre), Real(box.centre), Real(box.centre)}};
+    const std::array<Real,3> w{{Real(box.width), Real(box.width), Real(box.width)}}, c{{Real(box.c[0]), Real(box.c[1]), Real(box.c[2])}};
     const TbfSpacialConfiguration<Real,3> cfg(height, w, c);
     Tree tree(cfg, parts, bs, ogpp);
     beat();
@@ -203,8 +203,7 @@ void evalConfig(const int height, const int boxId, const int setId, Report& rep,
     const BoxN& box = BOXES[boxId];
     std::vector<std::array<Real,4>> parts;
     for(const Pt& p : particleSet(setId)){
-        const double corner = box.centre - box.width/2;
-        parts.push_back({{Real(corner + p.x*box.width), Real(corner + p.y*box.width), Real(corner + p.z*box.width), Real(p.q)}});
+        parts.push_back({{Real(box.corner(0) + p.x*box.width), Real(box.corner(1) + p.y*box.width), Real(box.corner(2) + p.z*box.width), Real(p.q)}});
     }
     const std::string base = std::string(KT::name()) + " order=" + std::to_string(ORD) + " real=" + (sizeof(Real) == 4 ? "float" : "double") + " height=" + std::to_string(height)
         + " box=" + box.name + " set=" + std::to_string(setId) + " n=" + std::to_string(parts.size());
@@ -277,15 +276,14 @@ void evalPeriodicNum(const int height, const int boxId, const int setId, const l
     std::vector<std::array<Real,4>> parts;
     const auto pts = particleSet(setId);
     for(size_t i = 0 ; i < pts.size() && parts.size() < 60 ; ++i){
-        const double corner = box.centre - box.width/2;
         // keep the particles strictly inside the box (a point on the upper face coincides with the image of the lower face)
         const double x = std::min(pts[i].x, 0.999), y = std::min(pts[i].y, 0.999), z = std::min(pts[i].z, 0.999);
-        parts.push_back({{Real(corner + x*box.width), Real(corner + y*box.width), Real(corner + z*box.width), Real(pts[i].q)}});
+        parts.push_back({{Real(box.corner(0) + x*box.width), Real(box.corner(1) + y*box.width), Real(box.corner(2) + z*box.width), Real(pts[i].q)}});
     }
     const std::string base = std::string(KT::name()) + "-periodic order=" + std::to_string(ORD) + " real=" + (sizeof(Real) == 4 ? "float" : "double") + " height=" + std::to_string(height)
         + " box=" + box.name + " set=" + std::to_string(setId) + " extra=" + std::to_string(extra) + " n=" + std::to_string(parts.size());
     if(!pg.begin(base)) return;
-    const std::array<Real,3> w{{Real(box.width), Real(box.width), Real(box.width)}}, c{{Real(box.centre), Real(box.centre), Real(box.centre)}};
+    const std::array<Real,3> w{{Real(box.width), Real(box.width), Real(box.width)}}, c{{Real(box.c[0]), Real(box.c[1]), Real(box.c[2])}};
     const TbfSpacialConfiguration<Real,3> cfg(height, w, c);
     Outcome out;
     Res got; long lo = 0, hi = 0;
@@ -340,15 +338,15 @@ void evalTsmNum(const int height, const int boxId, const int setSrc, const int s
     using M = typename KT::M; using L = typename KT::L; using Kernel = typename KT::Kernel;
     using TreeT = TbfTreeTsm<Real, Real, 4, Real, 4, M, L, SI>;
     const BoxN& box = BOXES[boxId];
-    auto mk = [&](int id){ std::vector<std::array<Real,4>> v; const double corner = box.centre - box.width/2;
-        for(const Pt& p : particleSet(id)) v.push_back({{Real(corner + p.x*box.width), Real(corner + p.y*box.width), Real(corner + p.z*box.width), Real(p.q)}}); return v; };
+    auto mk = [&](int id){ std::vector<std::array<Real,4>> v; 
+        for(const Pt& p : particleSet(id)) v.push_back({{Real(box.corner(0) + p.x*box.width), Real(box.corner(1) + p.y*box.width), Real(box.corner(2) + p.z*box.width), Real(p.q)}}); return v; };
     const auto src = mk(setSrc); auto tgt = mk(setTgt);
     // 1/r is singular for a target that coincides with a source: not part of the input space
     tgt.erase(std::remove_if(tgt.begin(), tgt.end(), [&](const std::array<Real,4>& t){ for(const auto& q : src) if(q[0] == t[0] && q[1] == t[1] && q[2] == t[2]) return true; return false; }), tgt.end());
     const std::string base = std::string(KT::name()) + "-tsm order=" + std::to_string(ORD) + " real=" + (sizeof(Real) == 4 ? "float" : "double") + " height=" + std::to_string(height)
         + " box=" + box.name + " sources=set" + std::to_string(setSrc) + " targets=set" + std::to_string(setTgt);
     if(!pg.begin(base)) return;
-    const std::array<Real,3> w{{Real(box.width), Real(box.width), Real(box.width)}}, c{{Real(box.centre), Real(box.centre), Real(box.centre)}};
+    const std::array<Real,3> w{{Real(box.width), Real(box.width), Real(box.width)}}, c{{Real(box.c[0]), Real(box.c[1]), Real(box.c[2])}};
     const TbfSpacialConfiguration<Real,3> cfg(height, w, c);
     Outcome out;
     const size_t n = tgt.size();
